@@ -1210,6 +1210,10 @@ func isTypeName(x ast.Expr) bool {
 		return true
 	case *ast.SelectorExpr:
 		return isTypeName(t.X)
+	case *ast.IndexExpr: // instantiated generic type: T[A]{...}
+		return isTypeName(t.X)
+	case *ast.IndexListExpr:
+		return isTypeName(t.X)
 	}
 	return false
 }
